@@ -3,7 +3,7 @@ second) is reused, and the Template renders the previous source."""
 import os, tempfile
 from mako.template import Template
 
-d = tempfile.mkdtemp(dir="/tmp/hunt_c15_out")
+d = tempfile.mkdtemp()
 src = os.path.join(d, "t.html")
 mods = os.path.join(d, "mods")
 
